@@ -1,11 +1,13 @@
 (* C06 - What is signed, MACed or encrypted is what is later verified or decrypted.
    `st` is ANY builder state at the time of the creating call (this subsumes every history of
    builder calls before it); `m` is any later state that kept protected / payload / signature
-   ("after its protected headers and payload were set"); decode success is a hypothesis here and a
-   conclusion in C11 for well-formed values. *)
+   ("after its protected headers and payload were set"); decode success is a hypothesis in the first group of
+   theorems and a CONCLUSION in the second group (suffix _total) for well-formed built values. *)
 From Coset.Model Require Import Prelude Cbor Iana Label Msg Api Builders.
 From Coset.Spec Require Import DetCbor Structures.
 From Coset.Proofs Require Import Head RoundTrip Structures SignVerify.
+From Coset.Proofs Require Import HeaderRoundTrip MsgRoundTrip.
+From Coset.Proofs Require SignVerifyTotal.
 
 (* COSE_Sign1, embedded payload: the verifier receives the stored signature and exactly the bytes the signer was given *)
 Theorem C06_sign1_sign_then_verify :
@@ -163,3 +165,131 @@ Example C06_nonvacuous :
   exists tbs, Sign1_tbs_data st [x01] = Ok tbs /\
     sign1_builder_step st (S1_create_signature [x01] (fun t => Some (x73 :: t))) = Ok (mkSign1 (s1_prot st) (s1_unprot st) (s1_payload st) (x73 :: tbs)).
 Proof. eexists. split; vm_compute; reflexivity. Qed.
+
+(* ===== total form (Proofs/SignVerifyTotal.v): for a well-formed built message (T_bwf, shown
+   satisfiable by every decoded value and by the literals of the examples there) encoding and decoding
+   are CONCLUSIONS: the whole chain create -> serialise -> parse -> verify/decrypt succeeds ===== *)
+Theorem C06_sign1_sign_then_verify_total :
+  forall (st : sign1) (aad : bytes) (signer : closure1) (tbs sg : bytes) (m : sign1)
+         (R : Type) (verifier : bytes -> bytes -> R),
+    Sign1_tbs_data st aad = Ok tbs -> signer tbs = Some sg ->
+    s1_prot m = s1_prot st -> s1_payload m = s1_payload st -> s1_sig m = sg ->
+    CoseSign1_bwf m ->
+    exists v m', CoseSign1_to_value m = Ok v /\ CoseSign1_from_value v = Ok m' /\
+                 Sign1_verify_signature m' aad verifier = Ok (verifier sg tbs).
+Proof. exact SignVerifyTotal.sign1_sign_then_verify_total. Qed.
+Print Assumptions C06_sign1_sign_then_verify_total.
+
+Theorem C06_sign1_detached_sign_then_verify_total :
+  forall (st : sign1) (pl aad : bytes) (signer : closure1) (tbs sg : bytes) (m : sign1)
+         (R : Type) (verifier : bytes -> bytes -> R),
+    Sign1_tbs_detached_data st pl aad = Ok tbs -> signer tbs = Some sg ->
+    s1_prot m = s1_prot st -> s1_payload m = s1_payload st -> s1_sig m = sg ->
+    CoseSign1_bwf m ->
+    exists v m', CoseSign1_to_value m = Ok v /\ CoseSign1_from_value v = Ok m' /\
+                 Sign1_verify_detached_signature m' pl aad verifier = Ok (verifier sg tbs).
+Proof. exact SignVerifyTotal.sign1_detached_sign_then_verify_total. Qed.
+Print Assumptions C06_sign1_detached_sign_then_verify_total.
+
+Theorem C06_sign_sign_then_verify_total :
+  forall (st : sign) (s : signature) (aad : bytes) (signer : closure1) (tbs sg : bytes) (m : sign)
+         (R : Type) (verifier : bytes -> bytes -> R),
+    Sign_tbs_data st aad s = Ok tbs -> signer tbs = Some sg ->
+    sn_prot m = sn_prot st -> sn_payload m = sn_payload st ->
+    sn_sigs m = sn_sigs st ++ [mkSignature (s_prot s) (s_unprot s) sg] ->
+    CoseSign_bwf m ->
+    exists v m', CoseSign_to_value m = Ok v /\ CoseSign_from_value v = Ok m' /\
+                 Sign_verify_signature m' (length (sn_sigs st)) aad verifier = Ok (verifier sg tbs).
+Proof. exact SignVerifyTotal.sign_sign_then_verify_total. Qed.
+Print Assumptions C06_sign_sign_then_verify_total.
+
+Theorem C06_mac0_create_then_verify_total :
+  forall (st : mac0) (aad : bytes) (tagger : closure1) (tbm tg : bytes) (m : mac0)
+         (R : Type) (verify : bytes -> bytes -> R),
+    Mac0_tbm st aad = Ok tbm -> tagger tbm = Some tg ->
+    m0_prot m = m0_prot st -> m0_payload m = m0_payload st -> m0_tag m = tg ->
+    CoseMac0_bwf m ->
+    exists v m', CoseMac0_to_value m = Ok v /\ CoseMac0_from_value v = Ok m' /\
+                 Mac0_verify_tag m' aad verify = Ok (verify tg tbm).
+Proof. exact SignVerifyTotal.mac0_create_then_verify_total. Qed.
+Print Assumptions C06_mac0_create_then_verify_total.
+
+Theorem C06_mac_create_then_verify_total :
+  forall (st : mac) (aad : bytes) (tagger : closure1) (tbm tg : bytes) (m : mac)
+         (R : Type) (verify : bytes -> bytes -> R),
+    Mac_tbm st aad = Ok tbm -> tagger tbm = Some tg ->
+    mc_prot m = mc_prot st -> mc_payload m = mc_payload st -> mc_tag m = tg ->
+    CoseMac_bwf m ->
+    exists v m', CoseMac_to_value m = Ok v /\ CoseMac_from_value v = Ok m' /\
+                 Mac_verify_tag m' aad verify = Ok (verify tg tbm).
+Proof. exact SignVerifyTotal.mac_create_then_verify_total. Qed.
+Print Assumptions C06_mac_create_then_verify_total.
+
+Theorem C06_encrypt0_create_then_decrypt_total :
+  forall (st : encrypt0) (pt aad : bytes) (enc : closure2) (a ct : bytes) (m : encrypt0)
+         (R : Type) (cipher : bytes -> bytes -> R),
+    enc_structure_data EncCoseEncrypt0 (e0_prot st) aad = Ok a -> enc pt a = Some ct ->
+    e0_prot m = e0_prot st -> e0_ct m = Some ct ->
+    CoseEncrypt0_bwf m ->
+    exists v m', CoseEncrypt0_to_value m = Ok v /\ CoseEncrypt0_from_value v = Ok m' /\
+                 Encrypt0_decrypt m' aad cipher = Ok (cipher ct a).
+Proof. exact SignVerifyTotal.encrypt0_create_then_decrypt_total. Qed.
+Print Assumptions C06_encrypt0_create_then_decrypt_total.
+
+Theorem C06_encrypt_create_then_decrypt_total :
+  forall (st : encrypt) (pt aad : bytes) (enc : closure2) (a ct : bytes) (m : encrypt)
+         (R : Type) (cipher : bytes -> bytes -> R),
+    enc_structure_data EncCoseEncrypt (en_prot st) aad = Ok a -> enc pt a = Some ct ->
+    en_prot m = en_prot st -> en_ct m = Some ct ->
+    CoseEncrypt_bwf m ->
+    exists v m', CoseEncrypt_to_value m = Ok v /\ CoseEncrypt_from_value v = Ok m' /\
+                 Encrypt_decrypt m' aad cipher = Ok (cipher ct a).
+Proof. exact SignVerifyTotal.encrypt_create_then_decrypt_total. Qed.
+Print Assumptions C06_encrypt_create_then_decrypt_total.
+
+Theorem C06_recipient_create_then_decrypt_total :
+  forall (st : recipient) (c : enc_context) (pt aad : bytes) (enc : closure2) (a ct : bytes) (m : recipient)
+         (R : Type) (cipher : bytes -> bytes -> R),
+    is_recipient_context c = true ->
+    enc_structure_data c (r_prot st) aad = Ok a -> enc pt a = Some ct ->
+    r_prot m = r_prot st -> r_ct m = Some ct ->
+    CoseRecipient_bwf m ->
+    exists v m', CoseRecipient_to_value m = Ok v /\ CoseRecipient_from_value v = Ok m' /\
+                 Recipient_decrypt m' c aad cipher = Ok (cipher ct a).
+Proof. exact SignVerifyTotal.recipient_create_then_decrypt_total. Qed.
+Print Assumptions C06_recipient_create_then_decrypt_total.
+
+Theorem C06_sign1_roundtrip_bytes_total :
+  forall (st : sign1) (aad : bytes) (signer : closure1) (tbs sg : bytes) (m : sign1)
+         (R : Type) (verifier : bytes -> bytes -> R),
+    Sign1_tbs_data st aad = Ok tbs -> signer tbs = Some sg ->
+    s1_prot m = s1_prot st -> s1_payload m = s1_payload st -> s1_sig m = sg ->
+    CoseSign1_bwf m -> (forall v, CoseSign1_to_value m = Ok v -> wire_ok v) ->
+    exists b m', to_vec CoseSign1_to_value m = Ok b /\ from_slice CoseSign1_from_value b = Ok m' /\
+                 Sign1_verify_signature m' aad verifier = Ok (verifier sg tbs).
+Proof. exact SignVerifyTotal.sign1_roundtrip_bytes_total. Qed.
+Print Assumptions C06_sign1_roundtrip_bytes_total.
+
+Theorem C06_sign1_roundtrip_tagged_bytes_total :
+  forall (st : sign1) (aad : bytes) (signer : closure1) (tbs sg : bytes) (m : sign1)
+         (R : Type) (verifier : bytes -> bytes -> R),
+    Sign1_tbs_data st aad = Ok tbs -> signer tbs = Some sg ->
+    s1_prot m = s1_prot st -> s1_payload m = s1_payload st -> s1_sig m = sg ->
+    CoseSign1_bwf m -> (forall v, CoseSign1_to_value m = Ok v -> wire_ok v) ->
+    exists b m', to_tagged_vec CoseSign1_to_value (tag_of "CoseSign1") m = Ok b /\
+                 from_tagged_slice CoseSign1_from_value (tag_of "CoseSign1") b = Ok m' /\
+                 Sign1_verify_signature m' aad verifier = Ok (verifier sg tbs).
+Proof. exact SignVerifyTotal.sign1_roundtrip_tagged_bytes_total. Qed.
+Print Assumptions C06_sign1_roundtrip_tagged_bytes_total.
+
+Theorem C06_sign1_builder_sign_then_verify_total :
+  forall (st : sign1) (aad : bytes) (signer : closure1) (R : Type) (verifier : bytes -> bytes -> R),
+    CoseSign1_bwf st -> (forall x, signer x <> None) ->
+    exists tbs sg m v m',
+      Sign1_tbs_data st aad = Ok tbs /\ signer tbs = Some sg /\
+      sign1_builder_step st (S1_create_signature aad signer) = Ok m /\
+      CoseSign1_to_value m = Ok v /\ CoseSign1_from_value v = Ok m' /\
+      Sign1_verify_signature m' aad verifier = Ok (verifier sg tbs).
+Proof. exact SignVerifyTotal.sign1_builder_sign_then_verify_total. Qed.
+Print Assumptions C06_sign1_builder_sign_then_verify_total.
+
